@@ -1673,6 +1673,8 @@ impl Dataset {
                 id = id_iter.next();
             }
         }
+        // Any ids beyond the last fragment refer to fragments that no longer exist.
+        fragments.resize_with(ordered_ids.len(), || None);
         fragments
     }
 
